@@ -116,6 +116,17 @@ class C05(Hist1Prop):
         src = {"binning": b, "sets": [gen1.enc_vals(s) for s in sets], "wsets": wsets, "adaptive": adaptive,
                "other": gen1.binning_json(other_pairs, form="pairs"),
                "invalid": rng.choice(["add_array", "add_scalar", "add_none", "add_list"])}
+        if adaptive and rng.random() < 0.5:
+            if rng.random() < 0.6:
+                w2 = w * rng.choice([2, 3, 10, 0.5])
+                ob = gen1.fixed_json(w2, 0, 0, shift=0.0, adaptive=True)
+            else:
+                w2 = w
+                sh = float(Fraction(b["shift"])) if "shift" in b else 0.0
+                ob = gen1.fixed_json(w, 0, 0, shift=sh + 0.25 * w, adaptive=True)
+            m = rng.choice([0, 1, 3])
+            src["offgrid"] = {"binning": ob, "vals": gen1.enc_vals([rng.randint(-10, 10) * w2 + 0.3 * w2 for _ in range(m)])}
+            tags.append("offgrid_operand")
         return self.build(src, tags)
 
     @staticmethod
@@ -150,6 +161,17 @@ class C05(Hist1Prop):
         ops.append({"op": "sum", "hs": [0], "out": 11})
         ops.append({"op": "construct", "out": 12, "binning": src["other"], "data": [], "weights": None})
         ops.append({"op": "add", "a": 0, "b": 12, "out": 13})
+        if src["adaptive"] and src.get("offgrid") is not None:
+            # adaptive operands on ANOTHER grid (different width, or same width and another origin), filled or still without
+            # bins, against A and against a still empty histogram of A's grid, in both orders: never grid-compatible
+            og = src["offgrid"]
+            ops.append({"op": "empty", "out": 14, "binning": og["binning"]})
+            ops.append({"op": "fill_n", "h": 14, "vs": og["vals"], "ws": None})
+            ops.append({"op": "empty", "out": 15, "binning": b})
+            ops.append({"op": "empty", "out": 16, "binning": og["binning"]})
+            for n, (x, y) in enumerate([(0, 14), (14, 0), (15, 14), (14, 15), (0, 16), (16, 0), (15, 16)]):
+                ops.append({"op": "add", "a": x, "b": y, "out": 20 + n, "offgrid": True})
+            ops.append({"op": "iadd", "h": 15, "o": 14, "offgrid": True})
         ops.append({"op": "invalid", "what": src["invalid"], "h": 0})
         return {"kind": "hist1", "ops": ops, "tags": tags, "src": src}
 
@@ -174,7 +196,7 @@ class C05(Hist1Prop):
         src = case["src"]
         by_out = {}
         for k, op in enumerate(ops):
-            if op["op"] in ("add", "sum") and op["out"] != 13:
+            if op["op"] in ("add", "sum") and op["out"] != 13 and not op.get("offgrid"):
                 if outs[k]["ret"] == "REFUSED":
                     fails.append(f"refused_valid: {op} was refused: " + "; ".join(io["log"][:2]))
             if op["op"] in ("construct", "fill_n", "empty") and outs[k]["ret"] == "REFUSED" and op.get("out") != 12:
@@ -213,6 +235,16 @@ class C05(Hist1Prop):
                 fails.append("accepted_incompatible: histograms with different bins were added")
         if outs[-1]["ret"] != "REFUSED":
             fails.append(f"accepted_invalid: {src['invalid']} accepted outside free arithmetics")
+        for k, op in enumerate(ops):
+            if op.get("offgrid") and outs[k]["ret"] != "REFUSED":
+                who = (op.get("a"), op.get("b")) if op["op"] == "add" else (op.get("h"), op.get("o"))
+                prev = outs[k - 1]["regs"]
+                if not any(prev[i]["bins"] for i in who):
+                    continue      # two histograms without any bins have the same (no) bins: the property does not say they are refused
+                fails.append(f"accepted_incompatible: adaptive histograms on different grids were added (registers {who}: "
+                             f"{src['binning'].get('w')} / shift {src['binning'].get('shift')} and {src['offgrid']['binning'].get('w')} / "
+                             f"shift {src['offgrid']['binning'].get('shift')}) instead of being refused")
+                break
         if src["adaptive"] and R(4)["bins"]:
             # union of both ranges on the common grid
             lo = min(x[0][0] for x in (R(0)["bins"], R(1)["bins"]) if x)
